@@ -1024,14 +1024,102 @@ func c17TunnelTrial(run *vk.Run, cs c17RegCase, tn int) {
 	}
 }
 
+// c17TunnelAudit is the registry state as its own lookups show it: which connection
+// object every known connection id / tunnel id resolves to, the count and the listing.
+func c17TunnelAudit(reg *TunnelRegistry, connIDs, tunnelIDs []string) map[string]string {
+	a := map[string]string{"count": fmt.Sprint(reg.Count()), "listed": fmt.Sprint(len(reg.List()))}
+	for _, id := range connIDs {
+		a["conn:"+id] = fmt.Sprintf("%p", reg.GetByConnID(id))
+	}
+	for _, id := range tunnelIDs {
+		c := reg.GetByTunnelID(id)
+		a["tunnel:"+id] = fmt.Sprintf("%p", c)
+		if c != nil {
+			a["tunnel:"+id] += "/" + c.ConnID + "/" + c.TunnelID
+		}
+	}
+	return a
+}
+
+// c17TunnelReRegisterTrial: the registry is exactly full; one more registration arrives
+// (variant: a new connection, a known connection id with the same / a different / no
+// tunnel id, a new connection claiming a known tunnel id) and is refused for capacity.
+// Oracle: after a refusal every lookup, the count and the listing are what they were.
+func c17TunnelReRegisterTrial(run *vk.Run, L, pos int, variant string) {
+	reg := NewTunnelRegistry(&TunnelRegistryConfig{MaxTunnels: L, Logger: corelog.NewNopLogger()})
+	var connIDs, tunnelIDs []string
+	for i := 0; i < L; i++ {
+		id := fmt.Sprintf("conn-%d", i)
+		if err := reg.Register(&TunnelConnection{ConnID: id, TunnelID: "tun-" + id, MappingID: "m"}); err != nil {
+			run.Count("tunnel_prefill_refused", 1)
+			return
+		}
+		connIDs = append(connIDs, id)
+		tunnelIDs = append(tunnelIDs, "tun-"+id)
+	}
+	known := connIDs[pos%L]
+	req := &TunnelConnection{MappingID: "m"}
+	switch variant {
+	case "new-conn":
+		req.ConnID, req.TunnelID = "conn-new", "tun-new"
+	case "known-conn-same-tunnel":
+		req.ConnID, req.TunnelID = known, "tun-"+known
+	case "known-conn-other-tunnel":
+		req.ConnID, req.TunnelID = known, "tun-reopened"
+	case "known-conn-no-tunnel":
+		req.ConnID = known
+	case "new-conn-known-tunnel":
+		req.ConnID, req.TunnelID = "conn-new", "tun-"+known
+	}
+	connIDs = append(connIDs, "conn-new")
+	tunnelIDs = append(tunnelIDs, "tun-new", "tun-reopened")
+	cs := map[string]any{"max_tunnels": L, "variant": variant, "known_conn": known}
+	run.Case("tunnel-reregister", cs)
+	before := c17TunnelAudit(reg, connIDs, tunnelIDs)
+	err := reg.Register(req)
+	after := c17TunnelAudit(reg, connIDs, tunnelIDs)
+	run.Eval(1)
+	run.Distinct(fmt.Sprintf("tunnel|reregister|L%d|p%d|%s|refused%v", L, pos%L, variant, err != nil))
+	if reg.Count() > L {
+		cs["count_after"] = reg.Count()
+		run.Violation("C17:tunnel-cap|exceeded|re-register-at-capacity", cs)
+		return
+	}
+	if err == nil {
+		run.Count("tunnel_reregister_admitted_at_capacity", 1) // e.g. a replacement that does not grow the registry
+		return
+	}
+	run.Count("tunnel_reregister_refusals_audited", 1)
+	var diff []string
+	for k, v := range before {
+		if after[k] != v {
+			diff = append(diff, fmt.Sprintf("%s: %s -> %s", k, v, after[k]))
+		}
+	}
+	if len(diff) > 0 {
+		sort.Strings(diff)
+		cs["changed"] = diff
+		cs["error"] = err.Error()
+		run.Violation("C17:tunnel-cap|refused-changed-state|re-register-at-capacity", cs)
+	}
+}
+
 func TestVerifC17TunnelCap(t *testing.T) {
 	vk.Quiet()
 	run := vk.Start(t, "C17", "tunnelcap")
 	defer run.Finish()
 	run.Rule("TunnelRegistry.Register with maxTunnels=L in {0,1,2,5}: prefill L-1, N in {2,8,32} concurrent Register calls from a spin barrier, sampler on Count(); " +
-		"afterwards connMap/tunnelMap must hold exactly prefill + admitted. distinct = (L, prefill, N, max Count, refused, max calls in flight)")
+		"afterwards connMap/tunnelMap must hold exactly prefill + admitted; sequential histories: registry exactly full, one more Register (new connection, known connection id with the same / another / no tunnel id, new connection claiming a known tunnel id) with a full audit of lookups by connection id and tunnel id, Count and List before/after a refusal. distinct = (L, prefill, N, max Count, refused, max calls in flight)")
 	run.Floor("tunnel_trials_2plus_in_flight", 100)
 	run.Floor("tunnel_refusals_checked", 100)
+	run.Floor("tunnel_reregister_refusals_audited", 30)
+	for _, L := range []int{1, 2, 3, 5} {
+		for pos := 0; pos < L; pos++ {
+			for _, v := range []string{"new-conn", "known-conn-same-tunnel", "known-conn-other-tunnel", "known-conn-no-tunnel", "new-conn-known-tunnel"} {
+				c17TunnelReRegisterTrial(run, L, pos, v)
+			}
+		}
+	}
 	reps := run.Pick(200, 4000)
 	tn := 0
 	for _, L := range c17Limits {
